@@ -54,6 +54,17 @@ def evaluate(case):
             if dd:
                 return VIOL(dict(sgn, kind='rate', factor=c), 'multiplying fs and f_range by %g changes the table: %s' % (c, dd),
                             evals=nev)
+        if o['fs'] == 64 and o['f_range'] == (6, 14):
+            # non-integer sampling rates: the same samples declared as 125 Hz, then 62.5 and 31.25 Hz (exact binary fractions)
+            k = 125 / 64
+            b2 = compute_features(np.array(sig), 125, (6 * k, 14 * k), **kw)
+            for c in (.5, .25):
+                d = compute_features(np.array(sig), 125 * c, (6 * k * c, 14 * k * c), **kw)
+                nev += 1
+                dd = diff_tables(d, b2, exact=True)
+                if dd:
+                    return VIOL(dict(sgn, kind='rate', factor=c, fs=125 * c), 'fs = %g Hz (non-integer) with the band scaled alike changes '
+                                'the table: %s' % (125 * c, dd), evals=nev)
         again = compute_features(np.array(sig), o['fs'], o['f_range'], **kw)
         nev += 1
         dd = diff_tables(again, base, exact=True)
@@ -106,7 +117,7 @@ def eval_tiny(case):
         return SKIP('degenerate narrow-band signal')
     base = compute_cyclepoints(sig.copy(), 8, (1, 3), **kw)
     nev = 1
-    for c in RATES:
+    for c in RATES + [1 / 8, 1 / 16]:       # down to a low band edge far below 1 Hz (fs = 1: band 0.125-0.375 Hz)
         d = compute_cyclepoints(sig.copy(), 8 * c, (1 * c, 3 * c), **kw)
         nev += 1
         dd = diff_tables(d, base, exact=True)
